@@ -70,4 +70,11 @@ def Covered (st : St) (x : Option Nat) : Prop :=
 def Feasible (st : St) : Prop :=
   ∀ ci, ci < st.cs.size → (getC st ci).unsat = false → Gen.zeroUpperBound ≤ slack st ci
 
+/-- the `vars` list of every block some variable points to has no duplicates (needed by `mergeAcross`, which shifts a variable once per
+occurrence in the list) -/
+def VarsNodup (st : St) : Prop := ∀ v, v < st.vs.size → (getB st (getV st v).block).vars.Nodup
+
+/-- the adjacency lists hold every constraint once (`populateSplitBlock` visits a neighbour once per occurrence) -/
+def AdjNodup (st : St) : Prop := ∀ v, v < st.vs.size → (getV st v).cOut.Nodup ∧ (getV st v).cIn.Nodup
+
 end Labella.Vpsc
